@@ -72,8 +72,12 @@ func cmdVerify(args []string) {
 	timeout := fs.Int("timeout", 10000, "per-check timeout ms")
 	verbose := fs.Bool("v", false, "")
 	probe := fs.Bool("probe", false, "run the vacuity probe instead (assert false at every exit)")
+	tmode := fs.Bool("tmode", false, "thread-modular mode (havoc guarded fields at every lock acquisition; C06 clauses active)")
 	fs.Parse(args)
 	prog, specs := loadAll(*repo, *prelude, *tags)
+	if !*tmode {
+		specs = specs.SView()
+	}
 	d := NewDischarger(*timeout, false)
 	for _, key := range strings.Split(*fn, ",") {
 		f, ok := prog.ByKey[key]
@@ -83,7 +87,7 @@ func cmdVerify(args []string) {
 		}
 		ct := specs.Funcs[key]
 		t0 := time.Now()
-		u := VerifyUnit(prog, specs, f, ct, UnitOpts{ProbeExit: *probe})
+		u := VerifyUnit(prog, specs, f, ct, UnitOpts{ProbeExit: *probe, Tmode: *tmode})
 		insts := d.DischargeUnit(u)
 		res := aggregate(insts)
 		fmt.Printf("== %s: %d paths, %d obligations, %v\n", key, u.Paths, len(res), time.Since(t0))
